@@ -394,6 +394,11 @@ def _borrowed_expr(v, cur, attrs):
     if isinstance(v, ast.Attribute):
         if v.attr == "T":
             return _borrowed_expr(v.value, cur, attrs)
+        root = v.value
+        while isinstance(root, (ast.Attribute, ast.Subscript)):
+            root = root.value
+        if isinstance(root, ast.Name) and ("@fresh", root.id) in cur:
+            return False  # a field of a record this function has just built (a carrier of scalars), not of the tree
         return v.attr in attrs
     if isinstance(v, ast.Call):
         last = call_name(v).split(".")[-1]
@@ -464,6 +469,12 @@ def _borrowed_writes(prog, f, seeds, attrs, depth, seen):
 
     def bind(target, value, cur):
         if isinstance(target, ast.Name):
+            # a local bound to the result of a call (other than an aliasing numpy call / an accessor of the tree) holds an
+            # object made for this function: a record of scalars, a new array
+            made = isinstance(value, ast.Call) and not _borrowed_expr(value, cur, attrs) and not (isinstance(value.func, ast.Attribute) and value.func.attr.startswith("get_"))
+            cur.discard(("@fresh", target.id))
+            if made:
+                cur.add(("@fresh", target.id))
             if value is not None and _borrowed_expr(value, cur, attrs):
                 cur.add(target.id)
             else:
